@@ -66,7 +66,7 @@ func allFunctions() []fnInfo {
 // function blocks, destroys or reaches outside the process BY CONTRACT with
 // these arguments (so the outcome says nothing about the property). Everything
 // else is called.
-func excluded(fn string, args []string) string {
+func excluded(fn, mode string, args []string) string {
 	kind := func(i int) string {
 		if i < len(args) {
 			return poolByName[args[i]].kind
@@ -78,6 +78,11 @@ func excluded(fn string, args []string) string {
 	switch fn {
 	case "common-lisp:loop":
 		return "loops forever by contract (no exit form can be built from pool objects)"
+	case "common-lisp:do", "common-lisp:do*":
+		if mode == "l" && 2 <= len(args) && args[0] == "lamx" && args[1] == "lamx" {
+			// (do (lambda (x) x) (lambda (x) x)): the end test is the variable `lambda`, bound to nil by the binding list
+			return "the end test is a variable bound to nil: loops forever by contract"
+		}
 	case "common-lisp:sleep":
 		if len(args) == 1 && isPos(0) {
 			return "sleeps for the given time by contract"
@@ -350,7 +355,7 @@ func execFunc(spec string) (res engine.Result) {
 		}
 	}
 	res.Hit("fn-cases")
-	if why := excluded(fn, args); why != "" {
+	if why := excluded(fn, mode, args); why != "" {
 		res.Outcome = "excluded:" + why
 		res.Hit("fn-excluded")
 		return
